@@ -46,7 +46,9 @@ func exhSpaces() []exhSpace {
 		sp = append(sp, exhSpace{pools.PPPoEFactory(c, "10.9.8.1", "exh"), ar})
 		sp = append(sp, exhSpace{pools.LocalFactory(c, 32, "exh"), ar})
 	}
-	sp = append(sp, exhSpace{pools.EpochFactory("10.9.8.4/30", 2, "exh"), alphabet(pools.OpAlloc, pools.OpRenew, pools.OpRelease, pools.OpAdvance)})
+	if pools.EpochConfigOK("10.9.8.4/30", 2) {
+		sp = append(sp, exhSpace{pools.EpochFactory("10.9.8.4/30", 2, "exh"), alphabet(pools.OpAlloc, pools.OpRenew, pools.OpRelease, pools.OpAdvance)})
+	}
 	for _, c := range []string{"2001:db8::4/126", "2001:db8::8/125"} {
 		sp = append(sp, exhSpace{pools.V6AddrFactory(c, "exh"), ar})
 	}
